@@ -294,6 +294,194 @@ func c08(p *model.Prog, r *report.Result) {
 		}
 	}
 	r.Check(sizes[11] && sizes[7] && sizes[3] && sizes[4], "C08.R4", fkey(runLoop, "layout", "header-sizes"), p.Pos(runLoop.Pos()), "reader consumes 11/7/3 header bytes and 4 extended bytes", "the reader's per-format header sizes differ from 11/7/3(+4)")
+	c08r56(p, r, calc, runLoop)
+}
+
+// c08r56 adds the basic-header byte rule (R5) and the reader's absolute/delta typestate (R6).
+func c08r56(p *model.Prog, r *report.Result, calc, runLoop *ssa.Function) {
+	// ---------------------------------------------------------------- R5
+	r.Rule("C08.R5", "in calcHeader the first header byte is defined once as <format> << 6 and afterwards only OR-ed with a value confined to the low six bits (a constant <= 63, or the csid behind a guard that excludes 64): on every path to the return the two format bits written are the format chosen")
+	out := calc.Params[2]
+	isByte0 := func(addr ssa.Value) bool {
+		ia, ok := addr.(*ssa.IndexAddr)
+		if !ok || ia.X != ssa.Value(out) {
+			return false
+		}
+		b, k := linear(ia.Index)
+		return b == nil && k == 0
+	}
+	csidFld := p.Field("pkg/base", "RtmpHeader", "Csid")
+	var defs, kills []*ssa.Store
+	nPres := 0
+	// classify a stored value: 'f' carries <format> << 6 (other operands confined to the low six
+	// bits), 'p' keeps the previous byte and ORs low bits in, 'l' low bits only, 'x' anything else
+	var classify func(v ssa.Value, at ssa.Instruction, d int) byte
+	classify = func(v ssa.Value, at ssa.Instruction, d int) byte {
+		if d > 8 {
+			return 'x'
+		}
+		if k, isK := model.ConstInt(v); isK {
+			if k >= 0 && k <= 63 {
+				return 'l'
+			}
+			return 'x'
+		}
+		switch y := v.(type) {
+		case *ssa.UnOp:
+			if y.Op == token.MUL && isByte0(y.X) {
+				return 'p'
+			}
+		case *ssa.Convert:
+			if model.IsLoadOfField(model.Unwrap(y), csidFld) && model.GuardedBy(at, func(c ssa.Value, pol bool) bool {
+				x, k, op, right, ok := constCmp(c)
+				return ok && model.IsLoadOfField(x, csidFld) && cmpAt(op, 63, k, right) == pol && cmpAt(op, 64, k, right) != pol
+			}) {
+				return 'l'
+			}
+		case *ssa.BinOp:
+			switch y.Op {
+			case token.SHL:
+				if k, isK := model.ConstInt(y.Y); isK && k == 6 {
+					if _, isC := y.X.(*ssa.Const); !isC {
+						return 'f'
+					}
+				}
+			case token.OR, token.ADD:
+				a, b := classify(y.X, at, d+1), classify(y.Y, at, d+1)
+				if a == 'x' || b == 'x' || (y.Op == token.ADD && (a == 'p' || b == 'p') && a != 'l' && b != 'l') {
+					return 'x'
+				}
+				switch {
+				case a == 'f' || b == 'f':
+					if a == b {
+						return 'x'
+					}
+					return 'f'
+				case a == 'p' || b == 'p':
+					return 'p'
+				}
+				return 'l'
+			}
+		}
+		return 'x'
+	}
+	model.EachInstr(calc, func(in ssa.Instruction) {
+		st, ok := in.(*ssa.Store)
+		if !ok || !isByte0(st.Addr) {
+			return
+		}
+		switch classify(st.Val, st, 0) {
+		case 'f':
+			defs = append(defs, st)
+		case 'p':
+			nPres++
+		default:
+			kills = append(kills, st)
+		}
+	})
+	isDef := func(in ssa.Instruction) bool {
+		for _, d := range defs {
+			if in == ssa.Instruction(d) {
+				return true
+			}
+		}
+		return false
+	}
+	isRet := func(in ssa.Instruction) bool { _, ok := in.(*ssa.Return); return ok }
+	noDefPath := model.PathQuery{Stop: isDef, Target: isRet}.Find(calc)
+	r.Check(len(defs) > 0 && noDefPath == nil, "C08.R5", fkey(calc, "byte0", "format-defined"), p.Pos(calc.Pos()), fmt.Sprintf("out[0] = fmt<<6 on every path; %d low-bit OR updates", nPres), "a path returns without out[0] having been set to <format> << 6")
+	for _, k := range kills {
+		bad := model.PathQuery{From: k, Stop: isDef, Target: isRet}.Find(calc)
+		r.Check(bad == nil, "C08.R5", fkey(calc, "byte0", "overwrite"), p.InstrPos(k), "overwritten again by fmt<<6 before returning", "the first header byte is overwritten after the format bits were placed and the function can return with that value: every chunk of this csid form goes out as format 0 (or with stray format bits), so the reader parses payload as an 11-byte message header")
+	}
+	r.Count("byte0_stores", len(defs)+len(kills)+nPres)
+	if len(defs)+nPres < 3 {
+		r.Bad("C08.R5", "floor", p.Pos(calc.Pos()), "expected stores of out[0] for the format bits and for the 1-byte and 3-byte csid forms")
+	}
+
+	// ---------------------------------------------------------------- R6
+	r.Rule("C08.R6", "typestate of Stream.absTsFlag in ChunkComposer.RunLoop: set to true only on the format-0 edge; set to false only behind the message-complete test, on every path from that test to the next chunk; TimestampAbs += timestamp happens only on the false edge of the flag, behind the message-complete test")
+	flag := p.Field("pkg/rtmp", "Stream", "absTsFlag")
+	msgLenF := p.Field("pkg/base", "RtmpHeader", "MsgLen")
+	tsAbsF := p.Field("pkg/base", "RtmpHeader", "TimestampAbs")
+	tsF := p.Field("pkg/rtmp", "Stream", "timestamp")
+	isComplete := func(c ssa.Value, pol bool) bool {
+		b, ok := c.(*ssa.BinOp)
+		if !ok || b.Op != token.EQL || !pol {
+			return false
+		}
+		isLen := func(v ssa.Value) bool {
+			call, ok := v.(*ssa.Call)
+			return ok && model.CalleeObj(call.Common()) != nil && model.CalleeObj(call.Common()).Name() == "Len"
+		}
+		return (isLen(b.X) && model.IsLoadOfField(b.Y, msgLenF)) || (isLen(b.Y) && model.IsLoadOfField(b.X, msgLenF))
+	}
+	// the format value: (bootstrap[0] >> 6) & 3
+	isFmt0 := func(c ssa.Value, pol bool) bool {
+		x, k, op, _, ok := constCmp(c)
+		if !ok || op != token.EQL || k != 0 || !pol {
+			return false
+		}
+		return model.DependsOn(x, func(v ssa.Value) bool {
+			b, ok := v.(*ssa.BinOp)
+			if !ok || b.Op != token.SHR {
+				return false
+			}
+			k, isK := model.ConstInt(b.Y)
+			return isK && k == 6
+		})
+	}
+	var falses []*ssa.Store
+	nTrue := 0
+	for _, st := range model.FieldStores(runLoop, flag) {
+		v, isK := model.ConstBool(st.Val)
+		switch {
+		case !isK:
+			r.Bad("C08.R6", fkey(runLoop, "flag", "non-constant"), p.InstrPos(st), "absTsFlag assigned a computed value")
+		case v:
+			nTrue++
+			r.Check(model.GuardedBy(st, isFmt0), "C08.R6", fkey(runLoop, "flag", "set"), p.InstrPos(st), "set on the format-0 edge", "absTsFlag is set outside the format-0 header branch: deltas of format 1/2 chunks are dropped")
+		default:
+			falses = append(falses, st)
+			r.Check(model.GuardedBy(st, isComplete), "C08.R6", fkey(runLoop, "flag", "clear"), p.InstrPos(st), "cleared behind the message-complete test", "absTsFlag is cleared before the message is complete: a format-1/2/3 chunk following a format-0 message on the same chunk stream, or a later chunk of a multi-chunk message, adds its delta to an absolute timestamp / loses the delta")
+		}
+	}
+	if nTrue == 0 || len(falses) == 0 {
+		r.Bad("C08.R6", "floor", p.Pos(runLoop.Pos()), "absTsFlag is never set or never cleared")
+	}
+	// every path from the complete edge back to the chunk loop passes a clear
+	for _, b := range runLoop.Blocks {
+		iff, ok := b.Instrs[len(b.Instrs)-1].(*ssa.If)
+		if !ok || !isComplete(iff.Cond, true) {
+			continue
+		}
+		region := b.Succs[0]
+		leak := model.PathQuery{FromBlock: region, Stop: func(in ssa.Instruction) bool {
+			for _, f := range falses {
+				if in == ssa.Instruction(f) {
+					return true
+				}
+			}
+			return false
+		}, Target: func(in ssa.Instruction) bool {
+			return !region.Dominates(in.Block()) && in.Block() != region
+		}}.Find(runLoop)
+		r.Check(leak == nil, "C08.R6", fkey(runLoop, "flag", "clear-on-every-path"), p.InstrPos(iff), "every path out of the message-complete region clears the flag", "a path leaves the message-complete region with absTsFlag still set: the next message's delta is ignored")
+	}
+	// accumulation
+	nAcc := 0
+	for _, st := range model.FieldStores(runLoop, tsAbsF) {
+		add, ok := st.Val.(*ssa.BinOp)
+		if !ok || add.Op != token.ADD || !(model.IsLoadOfField(add.X, tsAbsF) && model.IsLoadOfField(add.Y, tsF)) {
+			continue
+		}
+		nAcc++
+		okFlag := model.GuardedBy(st, func(c ssa.Value, pol bool) bool { return model.IsLoadOfField(c, flag) && !pol })
+		r.Check(okFlag && model.GuardedBy(st, isComplete), "C08.R6", fkey(runLoop, "flag", "accumulate"), p.InstrPos(st), "delta added once per complete message, only when no absolute timestamp was read", "the delta is added outside the (message complete, no absolute timestamp) condition")
+	}
+	if nAcc != 1 {
+		r.Bad("C08.R6", "floor-acc", p.Pos(runLoop.Pos()), fmt.Sprintf("expected exactly one TimestampAbs += timestamp, found %d", nAcc))
+	}
 }
 
 func valueOf(in ssa.Instruction) ssa.Value {
